@@ -544,6 +544,11 @@ static ares_status_t read_answers(ares_conn_t *conn, const ares_timeval_t *now)
   ares_channel_t *channel = conn->server->channel;
   ares_array_t   *requeue = NULL;
 
+  /* Callbacks triggered while processing an answer may close this connection
+   * (ares_cancel(), a follow-up query that can't be written to it, ...).  Keep
+   * the connection object alive until we are done with it. */
+  conn->state_flags |= ARES_CONN_STATE_READING;
+
   /* Process all queued answers */
   while (1) {
     unsigned short       dns_len  = 0;
@@ -580,7 +585,15 @@ static ares_status_t read_answers(ares_conn_t *conn, const ares_timeval_t *now)
 
     /* We finished reading this answer; process it */
     status = process_answer(channel, data, data_len, conn, now, &requeue);
+
+    /* The connection was closed underneath us, it is ours to release */
+    if (conn->state_flags & ARES_CONN_STATE_CLOSED) {
+      ares_conn_free(conn);
+      goto cleanup;
+    }
+
     if (status != ARES_SUCCESS) {
+      conn->state_flags &= ~((unsigned int)ARES_CONN_STATE_READING);
       handle_conn_error(conn, ARES_TRUE, status);
       goto cleanup;
     }
@@ -588,6 +601,8 @@ static ares_status_t read_answers(ares_conn_t *conn, const ares_timeval_t *now)
     /* Since we processed the answer, clear the tag so space can be reclaimed */
     ares_buf_tag_clear(conn->in_buf);
   }
+
+  conn->state_flags &= ~((unsigned int)ARES_CONN_STATE_READING);
 
 cleanup:
 
